@@ -1,6 +1,7 @@
 //! verif-replay <scenario> '<json args>'  -> prints one JSON object with what the REAL code did.
 use anemo::types::response::StatusCode;
 use anemo::types::Version;
+#[cfg(any(feature = "hooks-wire", feature = "hooks-cm", feature = "hooks-crypto", feature = "hooks-conn", feature = "hooks-timeout"))]
 use anemo::verif_hooks as h;
 use anemo::{Config, ConnectionOrigin, PeerId, Request, Response};
 use bytes::Bytes;
@@ -9,6 +10,7 @@ use std::collections::HashMap;
 use std::time::Duration;
 use tower::{Service, ServiceExt};
 
+#[cfg(feature = "hooks-crypto")]
 mod certs;
 mod hostile;
 mod rawdial;
@@ -83,6 +85,7 @@ fn hm(m: &HashMap<String, String>) -> Value {
     Value::Object(o)
 }
 
+#[cfg(feature = "hooks-timeout")]
 async fn timeout_select(a: &Value) -> Value {
     // observe the deadline the real middleware selects: inner service never completes, virtual clock
     tokio::time::pause();
@@ -319,6 +322,7 @@ async fn rpc_pairing(a: &Value) -> Value {
 /// C06 / C07 on the real decoders: a bounded exhaustive sweep of byte strings offered to read_request / read_response
 /// (every header frame of length 0..=5 over a 4-letter alphabet, with and without a body frame; every truncation and every
 /// single-byte corruption of two valid messages; huge length prefixes).  No input may panic; Ok only where the layout allows it.
+#[cfg(feature = "hooks-wire")]
 async fn decode_sweep(_a: &Value) -> Value {
     use futures::FutureExt;
     let cfg = Config::default();
@@ -457,50 +461,61 @@ async fn run(args: Vec<String>) {
     };
     let a: Value = serde_json::from_str(if raw.trim().is_empty() { "{}" } else { &raw }).expect("json");
     let out = match scenario {
+        #[cfg(feature = "hooks-cm")]
         "tie_break" => json!({"result": h::tie_break(&peer(&a["own"]), &peer(&a["remote"]), origin(&a["existing"]), origin(&a["new"]))}),
         "peer_lt" => json!({"result": peer(&a["a"]) < peer(&a["b"])}),
+        #[cfg(feature = "hooks-cm")]
         "backoff_update" => {
             let (att, d) = h::dial_backoff_update_from(a["attempts"].as_u64().unwrap() as usize,
                 Duration::from_nanos(a["step_ns"].as_u64().unwrap()), Duration::from_nanos(a["max_ns"].as_u64().unwrap()));
             json!({"attempts": att, "backoff_ns": d.as_nanos() as u64})
         }
+        #[cfg(feature = "hooks-cm")]
         "backoff_after" => {
             let (att, d) = h::dial_backoff_after(a["failures"].as_u64().unwrap() as usize,
                 Duration::from_nanos(a["step_ns"].as_u64().unwrap()), Duration::from_nanos(a["max_ns"].as_u64().unwrap()));
             json!({"attempts": att, "backoff_ns": d.as_nanos() as u64})
         }
+        #[cfg(feature = "hooks-wire")]
         "read_version" => match h::read_version_frame_bytes(&bytes_of(&a["bytes"])).await {
             Ok((v, n)) => json!({"ok": true, "version": v, "consumed": n}),
             Err(e) => json!({"ok": false, "error": e.to_string()}),
         },
+        #[cfg(feature = "hooks-wire")]
         "write_version" => json!({"bytes": h::write_version_frame_bytes(Version::V1).await.unwrap()}),
         "version_new" => json!({"ok": Version::new(a["version"].as_u64().unwrap() as u16).is_ok()}),
         "status_new" => match StatusCode::new(a["code"].as_u64().unwrap() as u16) {
             Ok(s) => json!({"ok": true, "to_u16": s.to_u16()}),
             Err(_) => json!({"ok": false}),
         },
+        #[cfg(feature = "hooks-wire")]
         "max_frame" => json!({"max": h::max_frame_length(&config(&a)) as u64}),
+        #[cfg(feature = "hooks-wire")]
         "write_request" => match h::write_request_bytes(&config(&a), request_of(&a)).await {
             Ok(b) => json!({"ok": true, "len": b.len(), "bytes": if b.len() <= 4096 { json!(hex::encode(&b)) } else { Value::Null },
                             "head": hex::encode(&b[..b.len().min(64)])}),
             Err(e) => json!({"ok": false, "error": e.to_string()}),
         },
+        #[cfg(feature = "hooks-wire")]
         "write_response" => match h::write_response_bytes(&config(&a), response_of(&a)).await {
             Ok(b) => json!({"ok": true, "len": b.len(), "bytes": if b.len() <= 4096 { json!(hex::encode(&b)) } else { Value::Null },
                             "head": hex::encode(&b[..b.len().min(64)])}),
             Err(e) => json!({"ok": false, "error": e.to_string()}),
         },
+        #[cfg(feature = "hooks-wire")]
         "read_request" => match h::read_request_bytes(&config(&a), &bytes_of(&a["bytes"])).await {
             Ok(r) => json!({"ok": true, "route": r.route(), "headers": hm(r.headers()), "body": r.body().to_vec(), "version": r.version().to_u16(),
                             "extensions_empty": r.extensions().is_empty()}),
             Err(e) => json!({"ok": false, "error": e.to_string()}),
         },
+        #[cfg(feature = "hooks-wire")]
         "read_response" => match h::read_response_bytes(&config(&a), &bytes_of(&a["bytes"])).await {
             Ok(r) => json!({"ok": true, "status": r.status().to_u16(), "headers": hm(r.headers()), "body": r.body().to_vec(), "version": r.version().to_u16(),
                             "extensions_empty": r.extensions().is_empty()}),
             Err(e) => json!({"ok": false, "error": e.to_string()}),
         },
         // write with the sender's limit, read back with the receiver's limit
+        #[cfg(feature = "hooks-wire")]
         "roundtrip_request" => {
             let wc = config(&a["sender"]);
             let rc = config(&a["receiver"]);
@@ -513,6 +528,7 @@ async fn run(args: Vec<String>) {
                 },
             }
         }
+        #[cfg(feature = "hooks-wire")]
         "roundtrip_response" => {
             let wc = config(&a["sender"]);
             let rc = config(&a["receiver"]);
@@ -525,6 +541,7 @@ async fn run(args: Vec<String>) {
                 },
             }
         }
+        #[cfg(feature = "hooks-timeout")]
         "parse_timeout" => {
             let mut m = HashMap::new();
             if let Some(s) = a.get("header").and_then(|x| x.as_str()) {
@@ -536,20 +553,25 @@ async fn run(args: Vec<String>) {
                 Err(e) => json!({"ok": false, "error": e}),
             }
         }
+        #[cfg(feature = "hooks-timeout")]
         "duration_to_timeout" => json!({"header": h::duration_to_timeout(Duration::new(a["secs"].as_u64().unwrap(), a["nanos"].as_u64().unwrap_or(0) as u32))}),
+        #[cfg(feature = "hooks-timeout")]
         "timeout_select" => timeout_select(&a).await,
         "auth" => auth(&a).await,
         "admission" => admission(&a).await,
         "oversize_confined" => oversize_confined(&a).await,
+        #[cfg(feature = "hooks-wire")]
         "decode_sweep" => decode_sweep(&a).await,
         "history" => history(&a).await,
         "rpc_pairing" => rpc_pairing(&a).await,
         "default_timeouts" => default_timeouts(&a).await,
+        #[cfg(feature = "hooks-crypto")]
         "cert_corpus" => certs::cert_corpus(&a),
         "network_names" => network_names(&a).await,
         "claimed_name_grid" => rawdial::claimed_name_grid(&a).await,
         "hostile_streams" => hostile::hostile_streams(&a).await,
         // several messages written in ONE process, one after the other (state kept between calls would show)
+        #[cfg(feature = "hooks-wire")]
         "write_sequence" => {
             let mut out = Vec::new();
             for m in a["messages"].as_array().unwrap() {
@@ -567,7 +589,7 @@ async fn run(args: Vec<String>) {
             }
             json!({"written": out, "read": back})
         }
-        other => json!({"error": format!("unknown scenario {other}")}),
+        other => json!({"unavailable": format!("scenario {other} is unknown or its hook group is not compiled in")}),
     };
     println!("{}", out);
 }
